@@ -218,6 +218,18 @@ Theorem C16_pcq_blocked_only_without_partner :
 Proof. intros n threads s Hn HF. exact (pcq_no_stuck_proof n Hn threads (initial_threads_wf threads HF) s). Qed.
 Print Assumptions C16_pcq_blocked_only_without_partner.
 
+(* in production order per producer: at every moment, under every schedule, what a producer thread has
+   stored so far (in the global store order, which by C16_pcq_fifo is the delivery order) followed by what
+   it still has to store is exactly its program - nothing of one producer is reordered, lost or duplicated *)
+Theorem C16_pcq_per_producer_order :
+  forall n threads s,
+  reachable (pcq_step n) (pcq_init (pcq_empty_init n) (pcq_used_init n) threads) s ->
+  map snd (q_wtlog s) = q_wlog s /\
+  forall i t0 t, nth_error threads i = Some t0 -> nth_error (q_threads s) i = Some t ->
+                 stored_by i s ++ to_store t = to_store t0.
+Proof. intros n threads s. exact (pcq_per_producer_order_proof n threads s). Qed.
+Print Assumptions C16_pcq_per_producer_order.
+
 (* every schedule is finite: each step of any thread decreases the total remaining work
    (5 steps per Produce/Consume call), whatever the capacity *)
 Theorem C16_pcq_runs_finite :
